@@ -146,9 +146,13 @@ func allocPortBlock(n int) (int, error) {
 
 // ClusterOpts are the knobs of one cluster instance.
 type ClusterOpts struct {
-	N               int
-	Engine          string
-	UseRocksWAL     bool
+	N           int
+	Engine      string
+	UseRocksWAL bool
+	// OptimizedFsync: namespace option optimized_fsync (default for namespaces created through
+	// the placement driver): WAL entries are flushed to the file but fdatasync is skipped
+	// unless term/vote change
+	OptimizedFsync  bool
 	SnapCount       int
 	SnapCatchup     int
 	KeepBackup      int
@@ -230,7 +234,7 @@ func NewCluster(name, dir string, o ClusterOpts) (*Cluster, error) {
 			ClusterID: "verif-" + name, NodeID: uint64(i + 1), DataDir: members[i].DataDir,
 			RedisPort: p, HTTPPort: p + 1, GRPCPort: p + 2, RaftPort: p + 3, MetricPort: p + 4, ProfilePort: p + 5, HarnessPort: p + 6,
 			Engine: o.Engine, UseRocksWAL: o.UseRocksWAL, TickMs: 100, ElectionTick: o.ElectionTick, KeepBackup: o.KeepBackup,
-			WALSegmentBytes: o.WALSegmentBytes, NSBase: "default", GroupID: 1000, SnapCount: o.SnapCount, SnapCatchup: o.SnapCatchup,
+			WALSegmentBytes: o.WALSegmentBytes, OptimizedFsync: o.OptimizedFsync, NSBase: "default", GroupID: 1000, SnapCount: o.SnapCount, SnapCatchup: o.SnapCatchup,
 			Replicator: o.N, Members: members, Table: o.Table,
 		}
 		n := &Node{ID: cfg.NodeID, Cfg: cfg, cl: cl,
